@@ -247,7 +247,15 @@ def check(ctx, rep):
     c05.check_pending_wakers(rep, 'R02.g', core, None, only=lambda f: 'capability::shell_request::' in f.npath or 'capability::shell_stream::' in f.npath, floor=2)
     c05.check_legacy_futures(rep, 'R02.g', 'R02.g', core)
     check_registry_miss(rep, core)
-    from rules.props import c09
+    from rules.props import c09, c06
+    # R02.j: over the bridge a response is routed by id: every effect (notifications included) is stored under, and announced with, the slab
+    # key of its own resolver, so no two outstanding requests share an id and a response for a notification meets its Never entry
+    rep.rule('R02.j', 'every serialised effect is registered and announced under the slab key of its own resolver; nothing renumbers the registry', floor=2)
+    reg_fn = c06.method(core, 'crux_core::bridge::registry::ResolveRegistry', 'register')
+    if reg_fn is None:
+        rep.missing('R02.j', 'ResolveRegistry::register')
+    else:
+        c09.check_register(rep, 'R02.j', core, reg_fn)
     rep.rule('R02.i', 'the arity state of a resolver (typed or serialised) is written only inside its own resolve', floor=2)
     c09.check_entry_writers(rep, 'R02.i', core)
     rep.assume('futures::channel::mpsc::unbounded and crux_core::capability::channel return two halves of one fresh FIFO channel')
